@@ -296,6 +296,9 @@ class Gen:
         choice = ['var', kc]
         if r.random() < 0.2:
             choice = ['num', float(r.choice(self.sp.keysets[kc]))]
+        if avs is not None and r.random() < 0.6:
+            # the availability dictionary need not list the alternatives in the order of the utilities
+            r.shuffle(avs)
         return ['loglogit', utils, avs, choice, r.choice(['log', 'prob'])]
 
 
@@ -414,6 +417,8 @@ def forced_tree(g: Gen, parent, slot, child_kind):
                     base = ['gt', c, ['num', 0.3]]
                 chosen = ['eq', node[3], ['num', float(k)]]
                 avs.append([k, ['or', chosen, base]])
+            if r.random() < 0.6:
+                r.shuffle(avs)
             node[2] = avs
         else:
             # choice computed by an expression: 0/1 valued comparison mapped onto two alternatives
